@@ -34,7 +34,7 @@ def plan(tier, seed):
     }
 
 
-def assign_heads(sh, choice):
+def assign_heads(sh, choice, extra_hd=False):
     """Decorate shape with unique labels and HD edges on the chosen head children.
     choice: dict path -> head child index."""
     n = len(model.leaves(sh))
@@ -46,7 +46,9 @@ def assign_heads(sh, choice):
             return s
         lab = 'VROOT' if path == () else 'N' + ''.join(map(str, path))
         h = choice[path]
-        return (lab, edge, tuple(rec(k, path + (i,), 'HD' if i == h else '--')
+        # with extra_hd the last child also carries HD (if it is right of the head): the leftmost HD is the head
+        return (lab, edge, tuple(rec(k, path + (i,), 'HD' if (i == h or (extra_hd and i == len(s) - 1 and i > h)) else
+                                     ('NK' if extra_hd and i < h else '--'))
                                  for i, k in enumerate(s)))
     root = rec(sh, (), '--')
     return model.MT(1, model.mk_tokens(n, edge=tok_edges), root)
@@ -301,9 +303,9 @@ def run_chunk(chunk):
         idx = 0
         for sh, k in sweep.iter_shapes(chunk):
             for choice in head_choices(sh):
-                mt = assign_heads(sh, choice)
-                j = mt.to_json()
                 idx += 1
+                mt = assign_heads(sh, choice, extra_hd=(idx % 3 == 0))
+                j = mt.to_json()
                 orders = (None, 'rev') if chunk.get('tier') == 'thorough' else ((None,) if idx % 2 else ('rev',))
                 for ra, order in itertools.product((False, True), orders):
                     vs, disc = check_one(j, ra, order)
